@@ -51,7 +51,7 @@ RECIPES = {
         level="model_checking",
         monitors={"C01"},
         mc=[MC_QM, MC_CLEAN],
-        runs=[dict(cmd="run", gen="restarts:120,gc-heavy:20,big:8,many-queues:8,names:8,aim-gc:60,aim-roll:30,aim-block:20,aim-batch:10,aim-pin:20", policy="always_flush"),
+        runs=[dict(cmd="run", gen="restarts:120,gc-heavy:20,big:8,many-queues:8,names:8,aim-gc:60,aim-roll:30,aim-block:40,aim-batch:10,aim-pin:20,aim-seam:40", policy="always_flush"),
               dict(cmd="run", gen="restarts:30,gc-heavy:6", policy="do_nothing,always_fsync,on_delay_long_flush"),
               dict(cmd="run", genreal="GEN_Wal.cfg", genreal_thorough="GEN_Wal_5.cfg")],
         rule="state after every Drop+open compared with QueueMap's state before it; non-trivial = restarts executed",
@@ -113,7 +113,7 @@ RECIPES = {
         level="model_checking",
         monitors={"C06"},
         mc=[MC_CLEAN],
-        runs=[dict(cmd="run", gen="gc-heavy:40,many-queues:12,big:10,restarts:20,aim-roll:80,aim-gc:40,aim-pin:30", policy="always_flush"),
+        runs=[dict(cmd="run", gen="gc-heavy:40,many-queues:12,big:10,restarts:20,aim-roll:80,aim-gc:40,aim-pin:30,aim-seam:30", policy="always_flush"),
               dict(cmd="run", gen="gc-heavy:10", policy="do_nothing,always_fsync"),
               dict(cmd="run", genreal="GEN_Wal.cfg", genreal_thorough="GEN_Wal_5.cfg")],
         rule="after every truncate / delete / open of crash-free scripts: real readdir is a contiguous run ending at "
@@ -159,7 +159,7 @@ RECIPES = {
                    opts={"crash": "process", "tears": "aimed", "cont": True, "max-points": "800"},
                    opts_thorough={"crash": "process", "tears": "all", "cont": True, "max-points": "8000"},
                    thorough_factor=6),
-              dict(cmd="damage", gen="batch:24,big:4,aim-batch:30", policy="always_flush",
+              dict(cmd="damage", gen="batch:24,big:4,aim-batch:30,aim-recreate:20", policy="always_flush",
                    opts={"classes": "payload,crc,hdr"},
                    opts_thorough={"classes": "payload,crc,hdr", "thorough": True}, thorough_factor=6)],
         rule="every batch ever appended is recovered entirely, not at all, or as an upper segment, at every crash point "
@@ -170,7 +170,7 @@ RECIPES = {
         level="model_checking",
         monitors={"C08"},
         mc=[MC_DAMAGE],
-        runs=[dict(cmd="damage", gen="small:20,batch:8,gc-heavy:6,big:3,names:3,aim-batch:10", policy="always_flush",
+        runs=[dict(cmd="damage", gen="small:20,batch:8,gc-heavy:6,big:3,names:3,aim-batch:10,aim-recreate:10", policy="always_flush",
                    opts={"classes": "payload,crc,hdr,noise", "noise": "300"},
                    opts_thorough={"classes": "payload,crc,hdr,noise", "noise": "1500", "thorough": True}, thorough_factor=8),
               dict(cmd="damage", gen="embed:12", policy="always_flush", opts={"classes": "embed,hdr"}),
@@ -189,7 +189,7 @@ RECIPES = {
         level="model_checking",
         monitors={"C09"},
         mc=[MC_DAMAGE],
-        runs=[dict(cmd="damage", gen="small:24,recreate:16,batch:8,gc-heavy:6,big:3,aim-batch:8", policy="always_flush",
+        runs=[dict(cmd="damage", gen="small:24,recreate:16,batch:8,gc-heavy:6,big:3,aim-batch:8,aim-recreate:10", policy="always_flush",
                    opts={"classes": "payload,crc", "cont": True},
                    opts_thorough={"classes": "payload,crc", "cont": True, "thorough": True}, thorough_factor=10)],
         rule="every frame of every image x {bit flip at first/middle/last payload byte, garbage payload, zero payload, "
